@@ -4,12 +4,15 @@ U2 == {"alice", "bob"}
 G1 == [u \in U2 |-> IF u = "alice" THEN {"A", "B"} ELSE {"C"}]
 G2 == [u \in U2 |-> IF u = "alice" THEN {"A"} ELSE {"*"}]
 G3 == [u \in U2 |-> IF u = "alice" THEN {"B", "C"} ELSE {"A", "C"}]
+GO1 == {G1}
 GO2 == {G1, G2}
 GO3 == {G1, G2, G3}
 PSAll == SUBSET Chans
 PS5 == {{}, {"A"}, {"B"}, {"A", "B"}, {"C"}, {"B", "C"}}
 CS2 == {{"A"}, {"C"}}
 CS1 == {{"B"}}
+PS2 == {{"A"}, {"A", "B"}}
+NoSets == {}
 PS3 == {{}, {"A"}, {"A", "B"}}
 RS2 == {{"*"}, {"A"}, {"A", "B"}}
 RS3 == {{"*"}, {"A"}, {"B"}, {"C"}, {"A", "B"}, {"A", "C"}, {"B", "C"}, {"A", "B", "C"}}
